@@ -89,6 +89,16 @@ def run_case(case):
         e = rng.choice(es)
         from adsg_core.graph.graph_edges import get_edge
         pair('add-parallel-edge', g.get_for_adjusted(added_edges=[get_edge(e[0], e[1], key=5)]))
+        # a copy keeps the edge keys: after the lower-keyed one of two parallel edges was removed, copy and original are equal
+        ints = [x for x in es if isinstance(x[2], int)]
+        if ints:
+            e2 = rng.choice(ints)
+            g_par = g.get_for_adjusted(added_edges=[get_edge(e2[0], e2[1], key=e2[2] + 1)])
+            g_rem = g_par.get_for_adjusted(removed_edges=[e2])
+            g_cp = g_rem.copy()
+            queries.append(sx(['same_graph', describe(b, g_cp, extra), describe(b, g_rem, extra)]))
+            impl.append(['copy-after-removing-lower-keyed-parallel-edge', bool(g_cp == g_rem), hash(g_cp) == hash(g_rem)])
+            tags.append('edit:copy-after-parallel-removal')
     others = [n for n in plain if n not in (g.derivation_start_nodes or set())]
     if others:
         g5 = g.copy()
@@ -105,6 +115,14 @@ def run_case(case):
             pass
     # pickle round trip of the graph
     fails = []
+    # the same description built again (fresh node objects): recognised as the same graph, same fingerprint
+    try:
+        b2 = dsgcase.build(c)
+        if not b2.dsg.is_same(g) or b2.dsg.fingerprint() != g.fingerprint():
+            fails.append({'clause': 'rebuilt-graph-not-recognised-as-same', 'detail': 'is_same %s, fingerprints equal %s' % (b2.dsg.is_same(g), b2.dsg.fingerprint() == g.fingerprint())})
+        tags.append('rebuild')
+    except Exception as e:
+        fails.append({'clause': 'rebuild-raises:%s' % type(e).__name__, 'detail': str(e)[:200]})
     g7 = pickle.loads(pickle.dumps(g))
     if not g7.is_same(g) or g7.fingerprint() != g.fingerprint():
         fails.append({'clause': 'pickled-graph-not-recognised-as-same', 'detail': ''})
@@ -194,6 +212,8 @@ def run_case(case):
 
 def compare(case, r, ms):
     for (name, eq, heq), m in zip(r['impl'], ms):
+        if name.startswith('copy') and not bool(m):
+            return {'clause': 'copy-is-not-structurally-equal', 'detail': '%s: the copy\'s nodes / keyed edges / start nodes / constraints differ from the original\'s' % name}
         if bool(m) != eq:
             return {'clause': 'equality-differs-from-structural-equality', 'detail': '%s: impl == gives %s, structural %s' % (name, eq, bool(m))}
         if eq and not heq:
